@@ -71,6 +71,7 @@ class Profile:
         mixed_zero_signs=True,
         word_aligned_allocas=False,
         forbidden=(),
+        long_block_pct=1,
     ):
         self.__dict__.update(locals())
         del self.__dict__["self"]
@@ -125,7 +126,11 @@ def int_consts(ty):
     if is_signed(ty):
         special += [-1, -2, -3, -7, -128 if lo <= -128 else lo]
     special = [s for s in special if lo <= s <= hi]
-    return st.one_of(st.sampled_from(special), st.integers(lo, hi), st.integers(max(lo, -20), min(hi, 20)))
+    # values at the edges of immediate / displacement fields of the instruction sets (8, 12, 16, 32 bit)
+    edges = [127, 128, 129, -127, -128, -129, 255, 256, 2047, 2048, 2049, -2047, -2048, -2049, 4095, 4096, 32767, 32768, -32768, -32769,
+             65535, 65536, 2**31 - 1, 2**31, 2**31 + 1, -(2**31), -(2**31) - 1, 2**32 - 1, 2**32]
+    edges = [e for e in edges if lo <= e <= hi]
+    return st.one_of(st.sampled_from(special), st.sampled_from(edges), st.integers(lo, hi), st.integers(max(lo, -20), min(hi, 20)))
 
 
 def _to_f32(x):
@@ -360,6 +365,9 @@ class _FuncGen:
                                 if self.chance(70):
                                     self.observe(pn, pty, pool, out)
             nins = 0 if (b > 0 and self.chance(22)) else draw(st.integers(0, prof.max_ins))
+            if prof.long_block_pct and self.chance(prof.long_block_pct):
+                # a block longer than the code generator's splitting threshold (200 instructions)
+                nins = draw(st.integers(90, 130))
             for _ in range(nins):
                 self.gen_instruction(pool, out, define)
             if prof.observe and prof.observe_pct:
@@ -779,7 +787,8 @@ class _FuncGen:
         offs = [o for o in range(0, osize - size + 1) if o % align == 0]
         if not offs:
             return None
-        o = self.pick(offs)
+        edge = [x for x in offs if 120 <= x <= 136]
+        o = self.pick(edge) if edge and self.chance(60) else self.pick(offs)
         if o == off:
             self.prov.setdefault(n, p)
             return n
@@ -954,6 +963,10 @@ class _ModGen:
             name = "g%d" % i
             self.globals.append({"name": name, "size": size, "align": align, "init": init})
             self.prov[name] = ("obj", name, 0, size, True)
+        if draw(st.integers(0, 99)) < 20:
+            # an object large enough for displacements around the 8 bit edge (offset 120..136)
+            self.globals.append({"name": "gbig", "size": 160, "align": 8, "init": None})
+            self.prov["gbig"] = ("obj", "gbig", 0, 160, True)
         if prof.global_refs and self.globals and draw(st.integers(0, 99)) < 25:
             tgt = draw(st.sampled_from([g["name"] for g in self.globals]))
             ps = prof.ptr_bits // 8
